@@ -199,6 +199,69 @@ def run(ctx):
                  "elements of a base's base are found", reference=6)
     base_recursion_rule(ctx, r)
 
+    # ---------------------------------------------------------------- R9
+    r = ctx.rule("C06-R9", "RANGE", "lookup by position answers like lookup by name: a list built from the arguments is subscripted with the caller's position only behind "
+                 "an upper-bound test on it (or inside a handler for IndexError) - a position past the end is 'no such argument' in format and builder alike", reference=2)
+    for cls in (fmt, bld):
+        m = cls.methods.get("get_argument")
+        if m is None:
+            continue
+        cfg = ctx.cfg(m)
+        prm0 = [a for a in m.params if a != "self"][0]
+        lists = {t.id for n in walk_no_nested(m.node) if isinstance(n, ast.Assign) and isinstance(n.value, ast.Call) and isinstance(n.value.func, ast.Name) and n.value.func.id == "list" for t in n.targets if isinstance(t, ast.Name)}
+        for sub in [n for n in walk_no_nested(m.node) if isinstance(n, ast.Subscript) and isinstance(n.ctx, ast.Load) and isinstance(n.value, ast.Name) and n.value.id in lists and isinstance(n.slice, ast.Name) and n.slice.id == prm0]:
+            x = sub.value.id
+            ok_ = True
+            for sn in cfg.nodes_of(sub):
+                # only paths on which the list form reaches the subscript matter
+                ldefs = [w for w in cfg.writes(lambda t: t == x) if isinstance(w.ast, ast.Assign) and isinstance(w.ast.value, ast.Call) and isinstance(w.ast.value.func, ast.Name) and w.ast.value.func.id == "list"]
+                if not any(sn.id in cfg.reach([w.id]) for w in ldefs):
+                    continue
+                def bound_edge(e):
+                    if e.kind not in ("T", "F") or not (isinstance(e.ast, ast.Compare) and len(e.ast.ops) == 1 and prm0 in q.names_in(e.ast)
+                                                       and any(isinstance(c, ast.Call) and isinstance(c.func, ast.Name) and c.func.id == "len" for c in walk_no_nested(e.ast))):
+                        return False
+                    op = e.ast.ops[0]
+                    left_is_pos = prm0 in q.names_in(e.ast.left)
+                    if left_is_pos:   # pos OP len
+                        return (isinstance(op, (ast.GtE, ast.Gt)) and e.kind == "F") or (isinstance(op, (ast.Lt, ast.LtE)) and e.kind == "T")
+                    return (isinstance(op, (ast.LtE, ast.Lt)) and e.kind == "F") or (isinstance(op, (ast.Gt, ast.GtE)) and e.kind == "T")   # len OP pos
+                edges = {e.id for e in cfg.nodes if bound_edge(e)}
+                bounded = bool(edges) and all(cfg.all_paths_hit(w.id, edges, [sn.id]) for w in ldefs if sn.id in cfg.reach([w.id]))
+                handled = False
+                for s_, k in cfg.succ[sn.id]:
+                    hn = cfg.nodes[s_]
+                    if k == "e" and hn.kind == "except":
+                        nm = [] if hn.ast.type is None else [norm(t_) for t_ in (hn.ast.type.elts if isinstance(hn.ast.type, ast.Tuple) else [hn.ast.type])]
+                        if hn.ast.type is None or any(t_ in ("IndexError", "LookupError", "Exception") for t_ in nm):
+                            handled = True
+                if not (bounded or handled):
+                    ok_ = False
+            if ok_:
+                r.ok("%s.get_argument: %s bounded" % (cls.name, norm(sub)))
+            else:
+                r.fail(m, sub, norm(sub) + " unbounded", "%s.get_argument subscripts the argument list with the caller's position without an upper-bound test: a position past the end raises IndexError "
+                       "where the sibling raises the no-such-argument error" % cls.name)
+
+    # ---------------------------------------------------------------- R10
+    r = ctx.rule("C06-R10", "GUARD", "every alias of a command option identifies it: the loops that index long and short aliases run for every command option, not only "
+                 "for those that (also) have some other name", reference=4)
+    for cls, mname in ((fmt, "__init__"), (bld, "add_command_option")):
+        m = cls.methods.get(mname)
+        if m is None:
+            continue
+        cfg = ctx.cfg(m)
+        for loop in [n for n in walk_no_nested(m.node) if isinstance(n, ast.For) and isinstance(n.iter, ast.Attribute) and n.iter.attr in ("long_aliases", "short_aliases") and isinstance(n.iter.value, ast.Name)]:
+            elem = loop.iter.value.id
+            ln = cfg.node_of(loop)
+            extra = [e for e in cfg.nodes if e.kind in ("T", "F") and e.ast is not None and cfg.dominates(e.id, ln.id) and any(isinstance(x, ast.Attribute) and isinstance(x.value, ast.Name) and x.value.id == elem for x in walk_no_nested(e.ast))
+                     and not (cfg.inevitably_raises((cfg.false_of(e.cond) if e.kind == "T" else cfg.true_of(e.cond)).id) if (cfg.false_of(e.cond) if e.kind == "T" else cfg.true_of(e.cond)) is not None else False)]
+            if extra:
+                r.fail(m, loop, "loop over %s under `%s`" % (norm(loop.iter), norm(extra[0].ast)), "%s.%s indexes the %s only when %s%s: a command option without that other name keeps aliases the format "
+                       "does not know, so another option can take the same alias" % (cls.name, mname, loop.iter.attr.replace("_", " "), "" if extra[0].kind == "T" else "not ", norm(extra[0].ast)))
+            else:
+                r.ok("%s.%s: every %s indexed" % (cls.name, mname, loop.iter.attr))
+
     # ---------------------------------------------------------------- R4
     r = ctx.rule("C06-R4", "SIBLING", "has_X(k) is true exactly when get_X(k) finds k: both consult the same indices", reference=6)
     for cls in (fmt, bld):
